@@ -9,7 +9,7 @@ TWO_PI = 2 * np.pi
 
 RULE = ("Cases: (stat) label vectors with K<=12 cycles of length 1..20 and -1 gaps anywhere (labels time-ordered, permuted, or re-appearing non-contiguously) x float values x "
         "funcs {mean,max,sum,len,first,range} x value dtype {float,int,bool} x out in {None,'samples'} x cycles given as vector / column; "
-        "(stat_object) the same through a Cycles object in cycle and augmented mode, both outputs; (align) monotone wrapped phases of 2-8 whole cycles of 8..400 samples x quantity g_c(phase) "
+        "(stat_object) the same through a Cycles object in cycle and augmented mode, both outputs; (align_modes) phase_align through one IterateCycles object with the mode ('cycle' / 'augmented') changing between calls, each result compared with a fresh iterator's and with the mode's definition; (align) monotone wrapped phases of 2-8 whole cycles of 8..400 samples x quantity g_c(phase) "
         "(linear, sin, cos2, cubic polynomial; optionally a different affine transform per cycle) x npoints "
         "2..64 x interp_kind in {linear,quadratic,cubic} x cycles from the phase / explicit vector / Cycles "
         "object / a shifted labelling whose cycles contain the phase wrap; (bin) phases in [0,2pi) x nbins 2..64 (or the caller's non-uniform bin_edges) x 1-3 value columns x optional weights. Oracle: direct per-label "
@@ -352,7 +352,74 @@ def oracle_stat_object(case, rec):
     return len(set(lens)) >= 2
 
 
+@st.composite
+def align_modes_case(draw):
+    ip, lens = draw(gens.monotone_cycles_phase(3, 8, 12, 80, total_max=500))
+    return {'ip': ip, 'lens': lens, 'g': draw(st.sampled_from(['sin', 'cos2'])), 'npoints': draw(st.sampled_from([8, 24, 48])),
+            'order': draw(st.sampled_from([['cycle', 'augmented'], ['augmented', 'cycle'], ['augmented', 'augmented'],
+                                           ['cycle', 'augmented', 'cycle']]))}
+
+
+def oracle_align_modes(case, rec):
+    """phase_align through ONE iterator object, the alignment mode changing between calls: each result must be what a
+    fresh iterator gives for that mode (bit for bit) and must follow the mode's definition - 'cycle': the cycle's own samples on
+    a grid over [0, 2pi); 'augmented': the cycle plus the run back to the closest trough of the previous one, on a grid over
+    [-pi/2, 2pi), the first cycle (nothing before it) left empty."""
+    import emd
+    ip = np.asarray(case['ip'], dtype=float)
+    lens = case['lens']
+    nc = len(lens)
+    bounds = np.r_[0, np.cumsum(lens)]
+    g, g2max = G[case['g']]
+    x = g(ip)
+    npoints = case['npoints']
+    try:
+        C = emd.cycles.Cycles(ip.copy())
+        shared = C.iterate()
+    except Exception as e:
+        raise Violation('C14/phase_align/Cycles-raises/' + type(e).__name__, repr(e))
+    if np.any(np.abs(ip - 1.5 * np.pi) < 1e-12):
+        raise Discard('a phase sample exactly on the trough level')
+    for step, mode in enumerate(case['order']):
+        try:
+            got, grid = emd.cycles.phase_align(ip.copy(), x.copy(), cycles=shared, npoints=npoints, mode=mode)
+            fresh, _ = emd.cycles.phase_align(ip.copy(), x.copy(), cycles=C.iterate(), npoints=npoints, mode=mode)
+        except Exception as e:
+            raise Violation('C14/phase_align/raises/%s/mode=%s' % (type(e).__name__, mode), repr(e))
+        got = np.asarray(got, dtype=float)
+        tag = 'first-use' if step == 0 else 'after-%s' % case['order'][step - 1]
+        if got.shape != (npoints, nc) or not np.array_equal(got, np.asarray(fresh), equal_nan=True):
+            raise Violation('C14/phase_align/same-iterator-differs-from-fresh-iterator/mode=%s/%s' % (mode, tag), '')
+        lo = 0.0 if mode == 'cycle' else -np.pi / 2
+        egrid = lo + (np.arange(npoints) + 0.5) * (TWO_PI - lo) / npoints
+        if not np.allclose(grid, egrid, rtol=0, atol=1e-12):
+            raise Violation('C14/phase_align/grid/mode=' + mode, 'got %r' % (np.asarray(grid)[:4],))
+        for c in range(nc):
+            a, b = bounds[c], bounds[c + 1]
+            if mode == 'cycle':
+                ph = ip[a:b]
+            elif c == 0:
+                if np.any(got[:, 0] != 0):
+                    raise Violation('C14/phase_align/augmented/first-cycle-not-empty', repr(got[:4, 0]))
+                continue
+            else:
+                s0 = a
+                while s0 > 0 and ip[s0 - 1] >= 1.5 * np.pi:
+                    s0 -= 1
+                ph = np.unwrap(ip[s0:b]) - TWO_PI
+            inside = (egrid >= ph[0]) & (egrid <= ph[-1])
+            h = np.diff(ph).max()
+            err = np.abs(got[:, c] - g(egrid))[inside]
+            if err.size and err.max() > g2max * h * h / 8 + 1e-9:
+                raise Violation('C14/phase_align/value/mode=%s/%s' % (mode, tag),
+                                'cycle %d: error %.3g above the interpolation bound %.3g' % (c, err.max(), g2max * h * h / 8))
+        rec.cls('mode=%s %s' % (mode, tag))
+    return True
+
+
 CLAUSES = [
+    Clause('C14.align_modes', oracle_align_modes, strategy=align_modes_case(), quick=600, thorough=12000, shards=(4, 16),
+           nt_rule='every evaluated sequence of >= 2 alignments through one iterator'),
     Clause('C14.stat_object', oracle_stat_object, strategy=stat_object_case(), quick=1200, thorough=30000, shards=(4, 16),
            nt_rule='>=2 cycles of different length'),
     Clause('C14.stat', oracle_stat, strategy=stat_case(), quick=4000, thorough=80000, shards=(4, 16),
